@@ -72,6 +72,13 @@ Example c02_reject_nonvacuous :
   read_all 10 rs0 [ref_chunk [mkstep 9 1 3 0] [mkmsg 9 0 9 1 [1; 2; 3]]] [] = ([], E_FRESH).
 Proof. vm_compute. repeat split. Qed.
 
+(* the documented exception to (c): librtmp's ping on a fresh chunk stream 2 with a type-1 header
+   (42 000000 000006 04 0006 00000d0f) is accepted and decoded (it was rejected before b5987ac) *)
+Example c02_librtmp_ping_accepted :
+  read_all 5 rs0 [[66; 0; 0; 0; 0; 0; 6; 4; 0; 6; 0; 0; 13; 15]] []
+  = ([mkmsg 2 0 4 0 [0; 6; 0; 0; 13; 15]], E_EOF).
+Proof. vm_compute. reflexivity. Qed.
+
 (* The recorded finding: a legal plan (type 0 at 1000 ms, then type 1 with delta 0x1000000 on
    chunk stream 3) whose second message the reader reports at 16777216 instead of 16778216. *)
 Theorem c02_ext_delta_refuted :
